@@ -107,8 +107,97 @@ func checkPair(t *rapid.T, s *rt.Sub, typ uint16, run issuance, blindA, blindB [
 	})
 }
 
+// TestUnusualNonceLengths: the request is a function of the nonce BYTES whatever their number (the API takes a slice):
+// nonces of 16, 31, 33 and 40 bytes, and type-5 batches whose nonces differ in length. Creation may refuse such
+// arguments; if it does not, the request bytes must be the independent value for exactly these arguments, and a
+// second creation must reproduce them.
+func TestUnusualNonceLengths(t *testing.T) {
+	s := rt.S("unusual-nonce-lengths").SetRule("types 1 and 5, fixed blinds, nonces of 16/31/33/40 bytes (type 5: 1..4 nonces of mixed lengths incl. 32): creation refused, or request bytes == type || key-id byte || [blind]HashToGroup(type || nonce || SHA-256(challenge) || key id) per nonce (circl group API) and reproducible. non-trivial = every case with an accepted creation; distinct by (type, nonces, blinds)")
+	rt.Check(t, 60, 8000, func(t *rapid.T) {
+		defer rt.Entropy(gen.Seed().Draw(t, "entropy"))()
+		chal := gen.Challenge().Draw(t, "challenge")
+		odd := func(label string) []byte {
+			n := gen.Pick(t, []int{16, 31, 33, 40, 32}, label+"/len")
+			return gen.Bytes(t, n, n, label)
+		}
+		s.Eval()
+		var got, again, want []byte
+		var err error
+		if rapid.Bool().Draw(t, "type5") {
+			key := gen.OPRFKey(oprf.SuiteRistretto255, gen.Seed().Draw(t, "keyseed"))
+			issuer := type5.NewBatchedPrivateIssuer(key)
+			n := gen.UniformRange(t, 1, 4, "batch")
+			var nonces, blinds [][]byte
+			for i := 0; i < n; i++ {
+				nonces, blinds = append(nonces, odd("nonce")), append(blinds, gen.RistrettoScalar().Draw(t, "blind"))
+			}
+			s.Class("type5")
+			create := func() ([]byte, error) {
+				var st type5.BatchedPrivateTokenRequestState
+				var e error
+				if o := rt.GuardLite(func() {
+					st, e = type5.NewBatchedPrivateClient().CreateTokenRequestWithBlinds(chal, nonces, issuer.TokenKeyID(), issuer.TokenKey(), blinds)
+				}); o.Panic != nil {
+					return nil, fmt.Errorf("panic: %v", o.Panic)
+				}
+				if e != nil {
+					return nil, e
+				}
+				return append([]byte{}, st.Request().Marshal()...), nil
+			}
+			if got, err = create(); err == nil {
+				again, _ = create()
+				want = expectedRequestVar(5, issuer.TokenKeyID(), chal, nonces, blinds)
+			}
+		} else {
+			key := gen.OPRFKey(oprf.SuiteP384, gen.Seed().Draw(t, "keyseed"))
+			issuer := type1.NewBasicPrivateIssuer(key)
+			nonce, blind := odd("nonce"), gen.P384Scalar().Draw(t, "blind")
+			s.Class("type1")
+			create := func() ([]byte, error) {
+				var st type1.BasicPrivateTokenRequestState
+				var e error
+				if o := rt.GuardLite(func() {
+					st, e = type1.NewBasicPrivateClient().CreateTokenRequestWithBlind(chal, nonce, issuer.TokenKeyID(), issuer.TokenKey(), blind)
+				}); o.Panic != nil {
+					return nil, fmt.Errorf("panic: %v", o.Panic)
+				}
+				if e != nil {
+					return nil, e
+				}
+				return append([]byte{}, st.Request().Marshal()...), nil
+			}
+			if got, err = create(); err == nil {
+				again, _ = create()
+				want = expectedRequestVar(1, issuer.TokenKeyID(), chal, [][]byte{nonce}, [][]byte{blind})
+			}
+		}
+		if err != nil {
+			s.Class("creation-refused")
+			return
+		}
+		s.Nontrivial(got)
+		if !bytes.Equal(got, want) {
+			rt.Fail(t, "C11/unusual-nonce-length/request-value", "request created for nonces of unusual length is not type || key id byte || [blind]HashToGroup(type||nonce||SHA-256(challenge)||key id) for these arguments: got %s want %s", rt.Hex(got), rt.Hex(want))
+			return
+		}
+		if !bytes.Equal(got, again) {
+			rt.Fail(t, "C11/unusual-nonce-length/request-not-reproducible", "same arguments, different request bytes")
+		}
+	})
+}
+
 // expectedRequest computes a type-1 / type-5 token request from its arguments without pat-go.
 func expectedRequest(typ uint16, keyID, chal, nonces []byte, blinds [][]byte) []byte {
+	var ns [][]byte
+	for i := range blinds {
+		ns = append(ns, nonces[32*i:32*i+32])
+	}
+	return expectedRequestVar(typ, keyID, chal, ns, blinds)
+}
+
+// expectedRequestVar is expectedRequest for nonces of any length.
+func expectedRequestVar(typ uint16, keyID, chal []byte, nonces [][]byte, blinds [][]byte) []byte {
 	var g group.Group = group.P384
 	dst := "HashToGroup-OPRFV1-\x01-P384-SHA384"
 	if typ == 5 {
@@ -116,7 +205,7 @@ func expectedRequest(typ uint16, keyID, chal, nonces []byte, blinds [][]byte) []
 	}
 	var elements [][]byte
 	for i := range blinds {
-		input := gen.AuthInput(typ, nonces[32*i:32*i+32], chal, keyID)
+		input := gen.AuthInput(typ, nonces[i], chal, keyID)
 		sc := g.NewScalar()
 		if typ == 1 {
 			sc.SetBigInt(new(big.Int).SetBytes(blinds[i])) // big-endian integer, any length
